@@ -454,3 +454,93 @@ theorem mem_allMechs_of_fromName {n : String} {m : Mech} (h : fromName n = some 
   | ht h' cb => exact mem_allMechs_ht cb (fromName_ht_bound h)
 
 end Qx.C05
+
+/-! ## HT names are canonical once the hash loop stops at the first match -/
+namespace Qx.C05
+open Qx.SaslOrder
+
+theorem stripPrefix?_some {p s r : List Char} (h : stripPrefix? p s = some r) : s = p ++ r := by
+  unfold stripPrefix? at h
+  split at h
+  · rename_i hp
+    simp only [Option.some.injEq] at h
+    rw [← h]
+    exact (List.prefix_iff_eq_append.mp (List.isPrefixOf_iff_prefix.mp hp)).symm
+  · simp at h
+
+/-- with the `break` in place the loop consumes exactly one table entry: the one whose index it returns -/
+theorem htHashLoop_break_spec (hb : htHashLoopBreaks = true) (names : List String) :
+    ∀ (i : Nat) (s s' : List Char) (h : Nat), htHashLoop names i s none = (s', some h) →
+      i ≤ h ∧ ∃ nm, names[h - i]? = some nm ∧ s = nm.toList ++ s' := by
+  induction names with
+  | nil => intro i s s' h hh; simp [htHashLoop] at hh
+  | cons nm rest ih =>
+    intro i s s' h hh
+    unfold htHashLoop at hh
+    split at hh
+    · rename_i hp
+      simp only [Prod.mk.injEq, Option.some.injEq] at hh
+      obtain ⟨h1, h2⟩ := hh
+      subst h2
+      refine ⟨Nat.le_refl _, nm, by simp, ?_⟩
+      rw [← h1]
+      exact (List.prefix_iff_eq_append.mp (List.isPrefixOf_iff_prefix.mp hp)).symm
+    · obtain ⟨h1, nm', h2, h3⟩ := ih (i + 1) s s' h hh
+      refine ⟨by omega, nm', ?_, h3⟩
+      have e : h - i = (h - (i + 1)) + 1 := by omega
+      rw [e, List.getElem?_cons_succ]; exact h2
+
+/-- (decided on the generated tables) suffix accepted by `fromString` = separator + text written by `toString` -/
+theorem ht_cb_table_canonical : ∀ p ∈ htCbFromString, ∀ cb ∈ Cb.all, cbOfCxx p.2 = some cb →
+    htToStringSep ++ (lookup channelBindingToString cb.cxx).getD "" = p.1 := by decide
+
+theorem ht_prefix_eq : htToStringPrefix = htPrefix := by decide
+
+theorem htFromName_canonical (hb : htHashLoopBreaks = true) {n : String} {p : Nat × Cb} (h : htFromName n = some p) :
+    toName (.ht p.1 p.2) = n := by
+  unfold htFromName at h
+  split at h
+  · simp at h
+  · rename_i r hr
+    simp only at h
+    split at h
+    · simp at h
+    · rename_i hh hs
+      cases hl : lookup htCbFromString (String.ofList (htHashLoop ianaHashNames 0 r none).1) with
+      | none => rw [hl] at h; simp at h
+      | some c =>
+        rw [hl] at h
+        simp only [Option.bind_some] at h
+        cases hc : cbOfCxx c with
+        | none => rw [hc] at h; simp at h
+        | some cb =>
+          rw [hc] at h
+          simp only [Option.map_some, Option.some.injEq] at h
+          subst h
+          have hpair : htHashLoop ianaHashNames 0 r none = ((htHashLoop ianaHashNames 0 r none).1, some hh) :=
+            Prod.ext rfl hs
+          obtain ⟨_, nm, hnm, hr2⟩ := htHashLoop_break_spec hb ianaHashNames 0 r _ hh hpair
+          have hcb := ht_cb_table_canonical _ (lookup_mem hl) cb (Cb.mem_all cb) hc
+          simp only at hcb
+          have hn : n.toList = htPrefix.toList ++ r := stripPrefix?_some hr
+          apply String.toList_injective
+          simp only [toName, Nat.sub_zero] at hnm ⊢
+          rw [hnm, ht_prefix_eq]
+          simp only [Option.getD_some, String.toList_append, List.append_assoc]
+          rw [hn, hr2]
+          congr 2
+          rw [← String.toList_append, hcb, String.toList_ofList]
+
+theorem fromName_ht_canonical (hb : htHashLoopBreaks = true) {n : String} {h : Nat} {cb : Cb}
+    (hf : fromName n = some (.ht h cb)) : toName (.ht h cb) = n := by
+  obtain ⟨e, _, hfe⟩ := fromNameTbl_some hf
+  rcases fromEntry_some hfe with ⟨_, _, f', _, hm⟩ | ⟨_, _, a', _, hm⟩ | ⟨_, _, p, hp, hm⟩
+  · cases hm
+  · cases hm
+  · injection hm with h1 h2
+    rw [h1, h2]; exact htFromName_canonical hb hp
+
+/-- the C++ loop has the `break` (read from the source by the translator) -/
+theorem htHashLoopBreaks_true : htHashLoopBreaks = true := by decide
+
+end Qx.C05
